@@ -53,6 +53,7 @@ pub fn generator(prop: &str) -> Option<Gen> {
         "C01" => Some(gen::gen_c01),
         "C08" => Some(gen::gen_c08),
         "C17" => Some(gen::gen_c17),
+        "C15" => Some(gen::gen_c15),
         _ => None,
     }
 }
@@ -70,6 +71,7 @@ pub fn budget(prop: &str, tier: &str) -> u64 {
         "C01" => 200,
         "C08" => 300,
         "C17" => 300,
+        "C15" => 500,
         "C14" => 3 * 6 * 155 + 200,
         _ => 150,
     };
@@ -87,6 +89,8 @@ pub fn run_scenario(world: &transport::Shared, prop: &str, lines: &[String]) -> 
         w.faults = transport::Faults { max_requests_per_op: 64, ..Default::default() };
         w.sends = 0;
         w.recvs = 0;
+        w.reads = 0;
+        w.partial.clear();
     }
     let mut sess = Session::new(world.clone());
     for l in lines {
